@@ -29,9 +29,14 @@ fn assignments(seed: u64, used: &[bool; 5], pos: &[bool; 5]) -> Vec<Vec<Option<i
         return out;
     }
     // all symbols equal (Broadcast precondition holds between symbols), incl. 0 and 1
-    for v in [0, 1, 2, 7] {
+    for v in [0, 1, 7] {
         out.push(mk(&mut |_| v));
     }
+    // pairwise different values with inexact quotients (7/2, 7/3, 2/3, ...); the second one with
+    // negative values for the unconstrained symbols
+    const ODD: [i32; 5] = [7, 2, 3, 5, 11];
+    out.push(mk(&mut |i| ODD[i]));
+    out.push(mk(&mut |i| if pos[i] { ODD[(i + 1) % 5] } else { -ODD[i] }));
     // unconstrained symbols -1, positive ones 1
     out.push(mk(&mut |i| if pos[i] { 1 } else { -1 }));
     // one symbol k, the others 1
@@ -46,7 +51,7 @@ fn assignments(seed: u64, used: &[bool; 5], pos: &[bool; 5]) -> Vec<Vec<Option<i
         }));
     }
     // pool values (large, extremes); positive symbols get non-negative values 7 times out of 8
-    for _ in 0..4 {
+    for _ in 0..3 {
         out.push(mk(&mut |i| {
             let mut v = rng.pick(&VALS);
             if pos[i] && v < 0 && !rng.chance(1, 8) {
@@ -263,6 +268,65 @@ fn generate(seed: u64, n: usize, tier: &str, lite: bool, out: &mut impl Write) {
                 emit(out, &format!("(neg ({} {} {}))", op, a, b));
                 emit(out, &format!("({} (neg {}) {})", op, a, b));
                 emit(out, &format!("({} {} (neg {}))", op, a, b));
+            }
+        }
+    }
+    // 2b. "confusion" family: two structurally DIFFERENT expressions A, B that a wrong PartialEq
+    //     (or any other structural comparison) could conflate, placed where simplify decides by
+    //     structural equality: x - x, x + (-x), Max/Min/Broadcast duplicates (chains and pairs),
+    //     ceil(x/x), common factors of a quotient.  A/B: every ordered pair of distinct binary
+    //     constructors over the same operands, swapped operands, one operand changed, x vs -x,
+    //     different constants, different symbols, symbol vs constant.  Quick tier: 3 of the 18
+    //     contexts per (A, B); thorough: all, over more operand pairs.
+    {
+        let mut rng = SplitMix64(seed ^ 0xC0F5);
+        let thorough = tier == "thorough";
+        let mut operands: Vec<(&str, &str, &str, &str)> = vec![
+            // (l, r, another l, another r)
+            ("ai", "2", "bi", "3"),
+            ("au", "bi", "cu", "2"),
+            ("ai", "-3", "au", "3"),
+        ];
+        if thorough {
+            operands.push(("(+ ai 1)", "bu", "(+ ai 2)", "cu"));
+            operands.push(("7", "2", "-7", "-2"));
+            operands.push(("bi", "ai", "2", "au"));
+        }
+        for (l, r, l2, r2) in operands {
+            let mut pairs: Vec<(String, String)> = vec![];
+            for o1 in OPS {
+                for o2 in OPS {
+                    if o1 != o2 { pairs.push((format!("({} {} {})", o1, l, r), format!("({} {} {})", o2, l, r))); }
+                }
+                pairs.push((format!("({} {} {})", o1, l, r), format!("({} {} {})", o1, r, l)));
+                pairs.push((format!("({} {} {})", o1, l, r), format!("({} {} {})", o1, l, r2)));
+                pairs.push((format!("({} {} {})", o1, l, r), format!("({} {} {})", o1, l2, r)));
+                pairs.push((format!("({} {} {})", o1, l, r), format!("(neg ({} {} {}))", o1, l, r)));
+            }
+            pairs.push((l.to_string(), format!("(neg {})", l)));
+            pairs.push((l.to_string(), l2.to_string()));
+            pairs.push((r.to_string(), r2.to_string()));
+            pairs.push((l.to_string(), r.to_string()));
+            pairs.push((format!("(neg {})", l), format!("(neg {})", l2)));
+            for (a, b) in &pairs {
+                let t = "cu"; // a named term sorts before A and B, which stay adjacent
+                let ctx: Vec<String> = vec![
+                    format!("(- {} {})", a, b), format!("(- {} {})", b, a),
+                    format!("(+ {} (neg {}))", a, b), format!("(+ (neg {}) {})", a, b),
+                    format!("(+ (+ {} {}) (neg {}))", a, t, b),
+                    format!("(max {} {})", a, b), format!("(max {} {})", b, a),
+                    format!("(min {} {})", a, b), format!("(min {} {})", b, a),
+                    format!("(max {} (max {} {}))", a, t, b), format!("(min {} (min {} {}))", b, t, a),
+                    format!("(bc {} {})", a, b), format!("(bc {} (bc {} {}))", b, t, a),
+                    format!("(dc {} {})", a, b), format!("(dc {} {})", b, a),
+                    format!("(/ {} {})", a, b), format!("(/ (* {} {}) {})", a, t, b),
+                    format!("(/ (* {} {}) (* 2 {}))", t, b, a),
+                ];
+                if thorough {
+                    for c in &ctx { emit(out, c); }
+                } else {
+                    for _ in 0..3 { let i = rng.below(ctx.len() as u64) as usize; emit(out, &ctx[i]); }
+                }
             }
         }
     }
